@@ -2,6 +2,8 @@
 package c20
 
 import (
+	"github.com/tdewolff/canvas"
+
 	"verif/simrt"
 )
 
@@ -33,6 +35,7 @@ type Step struct {
 	Dashes   []float64 `json:"dashes,omitempty"`
 	Offset   float64   `json:"offset,omitempty"`
 	AsPaths  bool      `json:"as_paths,omitempty"` // use the Paths form of the boolean operation
+	ChainA   bool      `json:"chain_a,omitempty"`  // operand A is the path returned by this task's previous call (if that returned a path)
 	// text / fonts / rendering
 	Font    int      `json:"font,omitempty"` // index into the run's font table
 	Text    string   `json:"text,omitempty"`
@@ -121,6 +124,10 @@ type Result struct {
 	Hash  uint64 `json:"hash"`
 	Brief string `json:"brief"`
 	Fault bool   `json:"fault,omitempty"` // an injected sink error fired during this call
+	// MutatedLater is set when the returned path object was found changed after a LATER call that
+	// was not given it as an argument (results must not share state with later calls).
+	MutatedLater string `json:"mutated_later,omitempty"`
+	obj          *canvas.Path
 	// RepeatDiff is set when the call was asked to repeat itself on the very same input objects and
 	// the second output differed from the first ("repeated calls with the same inputs ...").
 	RepeatDiff string `json:"repeat_diff,omitempty"`
